@@ -221,6 +221,8 @@ def run(ctx, chk, tier):
     chk.floor("R20.1", 6, "4 compositions + 2 roc forms")
     chk.floor("R20.5", 7, "joint table, marginals, validity x 2 + counts")
 
+    size_precedence(ctx, chk)
+
 
 def ones_count(v, n):
     """(number of ones, total) of a 0/1 array term, a violation string, or None."""
@@ -244,3 +246,29 @@ def ones_count(v, n):
                         return "negative slice start -k selects the whole array when k == 0"
                     return sub(tot, lo), tot
     return None
+
+
+def size_precedence(ctx, chk):
+    """R20.6 the size passed to sample() wins over the size stored on the dataset (sample(n) returns n draws); without it the dataset's size is used."""
+    ev = ctx.ev
+    NDS = Sym("n_dataset", ("int", "notnone", "positive"))
+    cases = [(BD, {"p": Sym("p", ("float", "notnone"))}), (CD, {"p1": Sym("p1", ("float", "notnone")), "p2": Sym("p2", ("float", "notnone")), "rho": Sym("rho", ("float", "notnone"))})]
+    for cls, attrs in cases:
+        short = cls.split(".")[-1]
+        for given, want, other in ((NN, NN, NDS), (None, NDS, NN)):
+            def thunk():
+                o = Obj(ctx.db.cls(cls))
+                o.attrs.update(attrs)
+                o.attrs["n"] = NDS
+                return ev.call(ev.getattr(o, "sample"), [given] if given is not None else [], {"random": Const(False), "rng": RNG})
+            rets, rs, _ = all_values(ctx, chk, thunk)
+            inst = "%s:sample(%s)" % (short, "n" if given is not None else "")
+            if not rets:
+                chk.unknown("R20.6", "%s: no return path" % inst)
+                continue
+            bad = [o for o in rets if any(a == other for a in atoms_of(o.value)) or not any(a == want for a in atoms_of(o.value))]
+            if bad:
+                chk.violation("R20.6", cls + ".sample", inst, show(bad[0].value, 200), "the number of draws is %s" % ("the n passed to sample()" if given is not None else "the dataset's n"),
+                              ctx.where(cls + ".sample"))
+            else:
+                chk.hold("R20.6", inst, "number of draws = %s" % show(want))
